@@ -88,7 +88,7 @@ fn parity_router(hits: Arc<AtomicUsize>) -> repe::Router {
         .with_json("/flip", |v: Value| -> Result<Value, (repe::ErrorCode, String)> { if v["n"].as_u64().unwrap_or(0) % 2 == 1 { Err((repe::ErrorCode::ApplicationErrorBase, "odd".into())) } else { Ok(v) } })
 }
 const DEEP: &str = "/deep/a/b/c/d/e/f/g/h/i/j/k/l/m/n/o/p/q/r/s/t";
-const PARITY_REQS: [(u64, &str, bool); 23] = [
+const PARITY_REQS: [(u64, &str, bool); 24] = [
     (1, "/own", false), (2, "/echo", false), (3, "/missing", false), (4, "/own", false), (5, "/fail", false), (6, "/echo", true), (7, "/own", false),
     (8, "/rawq", false), (9, "/blk", false), (10, "/nowhere/missing/path", false),
     (11, "/v10/whoami", false), (12, "/v1/whoami", false), (13, DEEP, false), (14, "/deep/x", false),
@@ -98,10 +98,15 @@ const PARITY_REQS: [(u64, &str, bool); 23] = [
     (19, "/slice", false),
     // success, failure, success, failure on the same path, back to back
     (20, "/flip", false), (21, "/flip", false), (22, "/flip", false), (23, "/flip", false),
+    // a registered path sent with an UNASSIGNED query-format code (7): rejected with InvalidQuery, never dispatched
+    (24, "/echo#qf7", false),
 ];
 fn parity_request(id: u64, path: &str, notify: bool) -> repe::Message {
     // "/rawq": a request whose query is not a JSON pointer (rejected with InvalidQuery, query echoed)
     let qf = if path == "/rawq" { repe::QueryFormat::RawBinary } else { repe::QueryFormat::JsonPointer };
+    if let Some(route) = path.strip_suffix("#qf7") {
+        return repe::Message::builder().id(id).notify(notify).query_str(route).query_format_code(7).body_json(&json!({ "n": id })).unwrap().build();
+    }
     if let Some(route) = path.strip_suffix("#json") {
         return repe::Message::builder().id(id).notify(notify).query_str(route).query_format(qf).body_json(&json!({"a": 40})).unwrap().build();
     }
@@ -257,11 +262,14 @@ async fn server_query_parity() -> Result<String, String> {
     let blocking = tokio::task::spawn_blocking(move || parity_blocking(r)).await.unwrap()?;
     let ws = parity_ws(parity_router(hits[4].clone()), false).await?;
     let ws_unlimited = parity_ws(parity_router(hits[5].clone()), true).await?;
-    let expect_q: [&[u8]; 22] = [b"/chosen/by-handler", b"/echo", b"/missing", b"/chosen/by-handler", b"/fail", b"/chosen/by-handler", b"/rawq", b"/blk", b"/nowhere/missing/path", b"/v10/whoami", b"/v1/whoami", DEEP.as_bytes(), b"/deep/x", b"/typed", b"/typedblk", b"/typed", b"/typedblk", b"/slice", b"/flip", b"/flip", b"/flip", b"/flip"];
-    let expect_id = [1u64, 2, 3, 4, 5, 7, 8, 9, 10, 11, 12, 13, 14, 15, 16, 17, 18, 19, 20, 21, 22, 23];
+    let expect_q: [&[u8]; 23] = [b"/chosen/by-handler", b"/echo", b"/missing", b"/chosen/by-handler", b"/fail", b"/chosen/by-handler", b"/rawq", b"/blk", b"/nowhere/missing/path", b"/v10/whoami", b"/v1/whoami", DEEP.as_bytes(), b"/deep/x", b"/typed", b"/typedblk", b"/typed", b"/typedblk", b"/slice", b"/flip", b"/flip", b"/flip", b"/flip", b"/echo"];
+    let expect_id = [1u64, 2, 3, 4, 5, 7, 8, 9, 10, 11, 12, 13, 14, 15, 16, 17, 18, 19, 20, 21, 22, 23, 24];
     for (name, got) in [("async", &plain), ("async+write_timeout", &with_w), ("async+read+write_timeout", &with_rw), ("blocking", &blocking), ("WebSocket", &ws), ("WebSocket, off-reader cap removed", &ws_unlimited)] {
-        if got.len() != 22 {
-            return Err(format!("{name}: {} responses to 22 requests and one notify", got.len()));
+        if got.len() != 23 {
+            return Err(format!("{name}: {} responses to 23 requests and one notify", got.len()));
+        }
+        if got[22].header.ec != repe::ErrorCode::InvalidQuery as u32 {
+            return Err(format!("{name}: a request whose query-format code (7) is not assigned was answered with ec {} (body {:?}); it must be rejected with InvalidQuery and never dispatched", got[22].header.ec, String::from_utf8_lossy(&got[22].body)));
         }
         for (i, ec) in [(18usize, 0u32), (19, repe::ErrorCode::ApplicationErrorBase as u32), (20, 0), (21, repe::ErrorCode::ApplicationErrorBase as u32)] {
             if got[i].header.ec != ec {
@@ -282,7 +290,7 @@ async fn server_query_parity() -> Result<String, String> {
         if got[11].header.ec != 0 || got[11].json_body::<Value>().ok() != Some(json!({"segments": 20, "last": "t"})) {
             return Err(format!("{name}: a 20-segment path below a struct mount was answered with ec {} body {:?}", got[11].header.ec, String::from_utf8_lossy(&got[11].body)));
         }
-        for i in 0..22 {
+        for i in 0..23 {
             if got[i].header.id != expect_id[i] {
                 return Err(format!("{name}: response {i} carries id {} (expected {})", got[i].header.id, expect_id[i]));
             }
@@ -302,7 +310,7 @@ async fn server_query_parity() -> Result<String, String> {
     if ws[6].header.ec != repe::ErrorCode::InvalidQuery as u32 {
         return Err(format!("a query that is not a JSON pointer was answered with ec {}", ws[6].header.ec));
     }
-    for i in 0..22 {
+    for i in 0..23 {
         for (name, got) in [("async", &plain), ("async+write_timeout", &with_w), ("async+read+write_timeout", &with_rw), ("WebSocket", &ws), ("WebSocket, off-reader cap removed", &ws_unlimited)] {
             if fields(&got[i]) != fields(&blocking[i]) {
                 return Err(format!("response {i} differs between {name} and blocking TCP: {:?} vs {:?}", fields(&got[i]), fields(&blocking[i])));
@@ -314,7 +322,7 @@ async fn server_query_parity() -> Result<String, String> {
         let r = parity_router(Arc::new(AtomicUsize::new(0)));
         let idx = |id: u64| expect_id.iter().position(|x| *x == id).unwrap();
         for (id, path, notify) in PARITY_REQS {
-            if notify || path == "/rawq" {
+            if notify || path == "/rawq" || path.ends_with("#qf7") {
                 continue;
             }
             let Some(h) = r.get(path) else { continue };
@@ -332,7 +340,7 @@ async fn server_query_parity() -> Result<String, String> {
             return Err(format!("the /own handler ran {} times for 3 requests", h.load(Ordering::SeqCst)));
         }
     }
-    Ok("22 responses identical on 6 server configurations (blocking TCP, async TCP x3, WebSocket inline and off-reader with the default and with no off-reader cap)".into())
+    Ok("23 responses identical on 6 server configurations (blocking TCP, async TCP x3, WebSocket inline and off-reader with the default and with no off-reader cap)".into())
 }
 
 // ---------------------------------------------------------------------------------------------
